@@ -34,13 +34,14 @@ func init() {
 		ID:    "C09",
 		Level: "exploration",
 		Race:  true,
-		Rule: "(a) runs of N=8..64 goroutines sending requests to one handler instance (5 operations: path/query/header/array/body parameters, OR and AND security requirements, two produces, a Responder result), each request carrying a unique token in every position; " +
+		Rule: "(a) runs of N=8..64 goroutines sending requests to one handler instance (9 operations: path/query/header/array/body parameters, OR and AND security requirements, an operation whose two alternatives have different scopes and can be satisfied at once, two produces, a Responder result, consumers that stamp their media type), each request carrying a unique token in every position; a quarter of the requests are driven accessor by accessor (RouteInfo, Authorize, BindAndValidate) and read back the stored principal, scopes and matched route; " +
 			"GOMAXPROCS in {1,2,4,16}; a PRNG-driven hook callback yields/sleeps at the inter-stage suspension points and records the hook trace; built with -race. " +
-			"(b) random sequences (<=12, with repetition) over RouteInfo/ContentType/ResponseFormat/Authorize/BindAndValidate/ResetAuth on one request, threading the returned request, judged by a 5-flag reference state machine over authenticator/consumer/lookup/body-read counters. " +
+			"(b) random sequences (<=12, with repetition) over RouteInfo/ContentType/ResponseFormat/Authorize/BindAndValidate/ResetAuth on one request (its own token per sequence; key / bearer / both / bad / nil-principal / no credentials; binding outcomes valid, 415, and invalid for validation reasons only), threading the returned request, judged by a 5-flag reference state machine over authenticator/consumer/lookup/validation/body-read counters; the first answer of each stage is judged against the request's own values, the Content-Type header is rewritten after its first parse, and a third of the sequences are preceded by the same request asked once and another client's request to the same operation (the grant must not change). " +
 			"non-trivial = (a) a run in which >= 2 requests were in flight at once (measured), distinct by hook-trace hash; (b) a sequence with >= 1 repeated accessor, distinct by (request shape, sequence)",
 		Assumptions: []string{
 			"isolation is judged by token equality on everything observable: MatchedRoute params seen by a Builder wrapper, the principal shown to the authorizer, bound values, selected producer/content type echoed in the response",
 			"an anonymous admission (nil principal) and a failed stage are not memoisable and may be recomputed",
+			"which of two alternatives a request satisfies at once admits it is not stated; that it is the same one for every such request to one handler instance, whatever was served before, is (derived from that request alone)",
 			"the race detector only reports races on accesses that executed",
 		},
 		MinNontrivial: 20,
@@ -63,6 +64,7 @@ func apiDesc() gen.Desc {
 		SecDefs: map[string]gen.SecDef{
 			"key": {Type: "apiKey", Name: "X-Key", In: "header"},
 			"tok": {Type: "apiKey", Name: "tok", In: "query"},
+			"oa":  {Type: "oauth2", Scopes: map[string]string{"read": "r", "write": "w"}},
 		},
 		Ops: []gen.Op{
 			{ID: "getA", Method: "GET", Template: "/a/{id}", Params: []gen.Param{pathP("id"), str("q", "query"), str("X-H", "header")},
@@ -78,6 +80,12 @@ func apiDesc() gen.Desc {
 			{ID: "postE", Method: "POST", Template: "/e", Params: []gen.Param{{Name: "body", In: "body", Required: true}}, Security: []gen.SecReq{{"key": {}}}},
 			{ID: "postW", Method: "POST", Template: "/w/{id}", Params: []gen.Param{pathP("id"), {Name: "body", In: "body", Required: true}},
 				Consumes: []string{"text/*"}},
+			// two alternatives with different scopes: a request may satisfy both at once
+			{ID: "getS", Method: "GET", Template: "/s/{id}", Params: []gen.Param{pathP("id"), str("q", "query")},
+				Security: []gen.SecReq{{"key": {}}, {"oa": {"read"}}}},
+			// a binding outcome that is invalid for validation reasons only (required/typed query parameter) next to a body
+			{ID: "postV", Method: "POST", Template: "/v/{id}", Params: []gen.Param{pathP("id"),
+				{Name: "n", In: "query", Type: "integer", Format: "int32", Required: true}, {Name: "body", In: "body", Required: true}}},
 		},
 	}
 	return d
@@ -103,7 +111,33 @@ type server struct {
 	authCalls int64
 	consumed  int64
 	lookups   int64
+
+	// which credential admitted the requests that carried a key AND a bearer token, per operation:
+	// nothing but the request decides, so they all agree
+	bothMu sync.Mutex
+	both   map[string]string
+	hist   []string
 }
+
+// noteBoth records which of its two credentials identified a request satisfying two alternatives at once.
+func (s *server) noteBoth(op, token, which string) {
+	s.bothMu.Lock()
+	defer s.bothMu.Unlock()
+	if s.both == nil {
+		s.both = map[string]string{}
+	}
+	if prev, ok := s.both[op]; !ok {
+		s.both[op] = which
+	} else if prev != which && len(s.hist) < 20 {
+		s.hist = append(s.hist, fmt.Sprintf("%s: request of token %q carrying both credentials was identified by %q, an earlier one by %q", op, token, which, prev))
+	}
+}
+
+func unusable(cred string) bool {
+	return strings.HasSuffix(cred, "~bad") || strings.HasSuffix(cred, "~zero")
+}
+
+func suffixOf(s string) string { return s[strings.LastIndexByte(s, '~')+1:] }
 
 func tokenOf(s string) string {
 	if i := strings.IndexByte(s, '~'); i >= 0 {
@@ -120,14 +154,25 @@ func buildServer() (*server, error) {
 	}
 	s := &server{xt: &crosstalk{}}
 	api := untyped.NewAPI(doc)
-	api.RegisterConsumer("application/json", rt.ConsumerFunc(func(r io.Reader, v interface{}) error {
-		atomic.AddInt64(&s.consumed, 1)
-		return rt.JSONConsumer().Consume(r, v)
-	}))
-	for _, mt := range []string{"text/plain", "text/x-a", "text/x-b", "text/x-c"} {
+	// every consumer stamps the media type it is registered for into what it decodes
+	for _, mt := range []string{"application/json", "text/plain", "text/x-a", "text/x-b", "text/x-c"} {
+		mt := mt
 		api.RegisterConsumer(mt, rt.ConsumerFunc(func(r io.Reader, v interface{}) error {
 			atomic.AddInt64(&s.consumed, 1)
-			return rt.JSONConsumer().Consume(r, v)
+			if err := rt.JSONConsumer().Consume(r, v); err != nil {
+				return err
+			}
+			switch p := v.(type) {
+			case *map[string]interface{}:
+				if p != nil && *p != nil {
+					(*p)["via"] = mt
+				}
+			case *interface{}:
+				if mm, ok := (*p).(map[string]interface{}); ok {
+					mm["via"] = mt
+				}
+			}
+			return nil
 		}))
 	}
 	api.RegisterProducer("application/json", rt.ProducerFunc(func(w io.Writer, v interface{}) error {
@@ -165,11 +210,24 @@ func buildServer() (*server, error) {
 		}
 		return "P:" + tok, nil
 	}))
+	api.RegisterAuth("oa", security.BearerAuth("oa", func(tok string, scopes []string) (interface{}, error) {
+		atomic.AddInt64(&s.authCalls, 1)
+		runtime.Gosched()
+		if strings.HasSuffix(tok, "~bad") {
+			return nil, oerrors.New(401, "bad bearer %s", tok)
+		}
+		return "P:" + tok, nil
+	}))
 	api.RegisterAuthorizer(rt.AuthorizerFunc(func(r *http.Request, p interface{}) error {
 		want := r.Header.Get("X-Token")
 		if ps, ok := p.(string); ok && ps != "" {
 			if tokenOf(strings.TrimPrefix(ps, "P:")) != want {
 				s.xt.add(fmt.Sprintf("authorizer: request of token %q shown principal %q", want, ps))
+			}
+			if k, b := r.Header.Get("X-Key"), r.Header.Get("Authorization"); k != "" && b != "" && !unusable(k) && !unusable(b) {
+				if mr := middleware.MatchedRouteFrom(r); mr != nil && mr.Operation != nil {
+					s.noteBoth(mr.Operation.ID, want, suffixOf(ps))
+				}
 			}
 		}
 		if mr := middleware.MatchedRouteFrom(r); mr != nil {
@@ -240,10 +298,14 @@ type reqSpec struct {
 	expBody string
 	// wantStatus: 0 = 200
 	wantStatus int
+	ct         string   // media type of the body sent ("" = no body)
+	creds      []string // credentials carried
+	bearer     string   // the bearer token among them
+	direct     bool     // driven accessor by accessor (RouteInfo, Authorize, BindAndValidate), as generated servers do
 }
 
 func mkRequest(r *rand.Rand, token string) *reqSpec {
-	ops := []string{"getA", "postA", "putB", "delA", "getB", "postW", "postE", "postE"}
+	ops := []string{"getA", "postA", "putB", "delA", "getB", "postW", "postE", "postE", "getS", "getS"}
 	op := ops[r.Intn(len(ops))]
 	acc := []string{"application/json", "text/plain"}[r.Intn(2)]
 	rs := &reqSpec{op: op, token: token, accept: acc, expect: map[string]string{}}
@@ -254,10 +316,12 @@ func mkRequest(r *rand.Rand, token string) *reqSpec {
 		q := url.Values{"q": {v("q")}}
 		if r.Intn(2) == 0 {
 			q.Set("tok", v("tk"))
+			rs.creds = []string{v("tk")}
 		}
 		req = httptest.NewRequest("GET", "/api/a/"+url.PathEscape(v("id"))+"?"+q.Encode(), nil)
 		if q.Get("tok") == "" {
 			req.Header.Set("X-Key", v("k"))
+			rs.creds = []string{v("k")}
 		}
 		req.Header.Set("X-H", v("h"))
 		rs.expect["id"], rs.expect["q"], rs.expect["X-H"] = v("id"), v("q"), v("h")
@@ -266,8 +330,23 @@ func mkRequest(r *rand.Rand, token string) *reqSpec {
 		req = httptest.NewRequest("POST", "/api/a/"+url.PathEscape(v("id"))+"?tok="+url.QueryEscape(v("tk")), strings.NewReader(body))
 		req.Header.Set("Content-Type", "application/json")
 		req.Header.Set("X-Key", v("k"))
+		rs.creds = []string{v("k"), v("tk")}
 		rs.expect["id"] = v("id")
 		rs.expBody = token
+		rs.ct = "application/json"
+	case "getS":
+		req = httptest.NewRequest("GET", "/api/s/"+url.PathEscape(v("id"))+"?q="+url.QueryEscape(v("q")), nil)
+		which := r.Intn(3)
+		if which != 1 {
+			req.Header.Set("X-Key", v("k"))
+			rs.creds = append(rs.creds, v("k"))
+		}
+		if which != 0 {
+			req.Header.Set("Authorization", "Bearer "+v("b"))
+			rs.creds = append(rs.creds, v("b"))
+			rs.bearer = v("b")
+		}
+		rs.expect["id"], rs.expect["q"] = v("id"), v("q")
 	case "postE":
 		body := fmt.Sprintf(`{"t":%q}`, token)
 		req = httptest.NewRequest("POST", "/api/e", strings.NewReader(body))
@@ -276,12 +355,15 @@ func mkRequest(r *rand.Rand, token string) *reqSpec {
 			rs.wantStatus = 401 // no credentials: whatever earlier requests to this route presented
 		} else {
 			req.Header.Set("X-Key", v("k"))
+			rs.creds = []string{v("k")}
 			rs.expBody = token
 		}
+		rs.ct = "application/json"
 	case "postW":
 		body := fmt.Sprintf(`{"t":%q}`, token)
 		req = httptest.NewRequest("POST", "/api/w/"+url.PathEscape(v("id")), strings.NewReader(body))
-		req.Header.Set("Content-Type", []string{"text/plain", "text/x-a", "text/x-b", "text/x-c"}[r.Intn(4)])
+		rs.ct = []string{"text/plain", "text/x-a", "text/x-b", "text/x-c"}[r.Intn(4)]
+		req.Header.Set("Content-Type", rs.ct)
 		rs.expect["id"] = v("id")
 		rs.expBody = token
 	case "putB":
@@ -290,11 +372,13 @@ func mkRequest(r *rand.Rand, token string) *reqSpec {
 		rs.expect["arr"] = v("1") + "," + v("2")
 	case "delA":
 		req = httptest.NewRequest("DELETE", "/api/a/"+url.PathEscape(v("id"))+"?tok="+url.QueryEscape(v("tk")), nil)
+		rs.creds = []string{v("tk")}
 		rs.expect["id"] = v("id")
 	case "getB":
 		req = httptest.NewRequest("GET", "/api/b/"+url.PathEscape(v("x"))+"?q="+url.QueryEscape(v("q")), nil)
 		if r.Intn(2) == 0 {
 			req.Header.Set("X-Key", v("k"))
+			rs.creds = []string{v("k")}
 		}
 		rs.expect["x"], rs.expect["q"] = v("x"), v("q")
 	}
@@ -313,6 +397,7 @@ func mkRequest(r *rand.Rand, token string) *reqSpec {
 		req.Header.Set("Accept", acc)
 	}
 	rs.req = req
+	rs.direct = r.Intn(4) == 0
 	return rs
 }
 
@@ -350,12 +435,20 @@ func judgeResponse(rs *reqSpec, rec *httptest.ResponseRecorder) string {
 	if out.V.Op != rs.op {
 		return fmt.Sprintf("handler of %q answered a request to %q", out.V.Op, rs.op)
 	}
+	return judgeBound(rs, out.V.Bound)
+}
+
+// judgeBound: every bound value is the one this request sent, and the body was decoded by the consumer
+// registered for this request's media type.
+func judgeBound(rs *reqSpec, bound map[string]interface{}) string {
 	for k, want := range rs.expect {
-		got := out.V.Bound[k]
+		got := bound[k]
 		gs := ""
 		switch x := got.(type) {
 		case string:
 			gs = x
+		case []string:
+			gs = strings.Join(x, ",")
 		case []interface{}:
 			var l []string
 			for _, e := range x {
@@ -370,12 +463,89 @@ func judgeResponse(rs *reqSpec, rec *httptest.ResponseRecorder) string {
 		}
 	}
 	if rs.expBody != "" {
-		b, _ := out.V.Bound["body"].(map[string]interface{})
+		b, _ := bound["body"].(map[string]interface{})
 		if fmt.Sprint(b["t"]) != rs.expBody {
-			return fmt.Sprintf("bound body %v, sent token %q", out.V.Bound["body"], rs.expBody)
+			return fmt.Sprintf("bound body %v, sent token %q", bound["body"], rs.expBody)
+		}
+		if via := fmt.Sprint(b["via"]); via != rs.ct {
+			return fmt.Sprintf("body sent as %q was decoded by the consumer registered for %q", rs.ct, via)
 		}
 	}
 	return ""
+}
+
+// scopesFor: the scopes of the alternative of op that the credential behind the principal satisfies.
+func scopesFor(op string, principal interface{}, bearer string) string {
+	if op == "getS" && bearer != "" && principal == "P:"+bearer {
+		return "read"
+	}
+	return ""
+}
+
+// directFlow drives one request the way a generated server does: RouteInfo, Authorize, BindAndValidate on
+// the shared Context, reading back what each stage stored in the request it returned.
+func (s *server) directFlow(rs *reqSpec) string {
+	rr, r1, ok := s.ctx.RouteInfo(rs.req)
+	if !ok || rr == nil || r1 == nil {
+		return "RouteInfo found no route"
+	}
+	if rr.Operation == nil || rr.Operation.ID != rs.op {
+		return fmt.Sprintf("RouteInfo matched %q for a request to %q", rr.PathPattern, rs.op)
+	}
+	if mr := middleware.MatchedRouteFrom(r1); mr != rr {
+		return "the request RouteInfo returned does not carry the matched route it returned"
+	}
+	for _, p := range rr.Params {
+		if tokenOf(p.Value) != rs.token {
+			return fmt.Sprintf("matched-route param %s=%q in a request of token %q", p.Name, p.Value, rs.token)
+		}
+	}
+	cur := r1
+	p, r2, err := s.ctx.Authorize(cur, rr)
+	if rs.wantStatus == 401 {
+		if err == nil {
+			return fmt.Sprintf("Authorize admitted (principal %v) a request that carries no credentials", p)
+		}
+		return ""
+	}
+	if err != nil {
+		return fmt.Sprintf("Authorize: %v", err)
+	}
+	if len(rs.creds) == 0 {
+		if p != nil {
+			return fmt.Sprintf("Authorize returned principal %v for a request that carries no credentials", p)
+		}
+	} else {
+		okp := false
+		for _, c := range rs.creds {
+			if p == "P:"+c {
+				okp = true
+			}
+		}
+		if !okp {
+			return fmt.Sprintf("Authorize returned principal %v, credentials carried %v", p, rs.creds)
+		}
+		if r2 == nil {
+			return "Authorize returned no request with a principal"
+		}
+		if sp := middleware.SecurityPrincipalFrom(r2); sp != p {
+			return fmt.Sprintf("principal stored in the request %v, returned %v", sp, p)
+		}
+		got := append([]string(nil), middleware.SecurityScopesFrom(r2)...)
+		sort.Strings(got)
+		if g, w := strings.Join(got, ","), scopesFor(rs.op, p, rs.bearer); g != w {
+			return fmt.Sprintf("scopes stored in the request [%s], the alternative satisfied by %v has [%s]", g, p, w)
+		}
+	}
+	if r2 != nil {
+		cur = r2
+	}
+	bound, _, err := s.ctx.BindAndValidate(cur, rr)
+	if err != nil {
+		return fmt.Sprintf("BindAndValidate: %v", err)
+	}
+	bm, _ := bound.(map[string]interface{})
+	return judgeBound(rs, bm)
 }
 
 type hookSched struct {
@@ -450,13 +620,19 @@ func runConcurrentOnce(m *mon.M, cfg *RunCfg, salt int64) {
 						break
 					}
 				}
-				pv, st := mon.Catch(func() { s.handler.ServeHTTP(rec, rs.req) })
+				var msg string
+				pv, st := mon.Catch(func() {
+					if rs.direct {
+						msg = s.directFlow(rs)
+					} else {
+						s.handler.ServeHTTP(rec, rs.req)
+					}
+				})
 				atomic.AddInt64(&inflight, -1)
 				atomic.AddInt64(&served, 1)
-				var msg string
 				if pv != nil {
 					msg = fmt.Sprintf("panic: %v\n%s", pv, st)
-				} else {
+				} else if !rs.direct {
 					msg = judgeResponse(rs, rec)
 				}
 				if msg != "" {
@@ -498,6 +674,11 @@ func runConcurrentOnce(m *mon.M, cfg *RunCfg, salt int64) {
 		m.Violate("in-pipeline-cross-talk", strings.Join(s.xt.list, "\n"), &one)
 	}
 	s.xt.mu.Unlock()
+	s.bothMu.Lock()
+	if len(s.hist) > 0 {
+		m.Violate("admitting-alternative-depends-on-other-requests/two-alternatives-satisfied", strings.Join(s.hist, "\n"), &one)
+	}
+	s.bothMu.Unlock()
 	if m.WantSample() {
 		m.Sample(map[string]interface{}{"cfg": cfg, "served": served, "max_inflight": maxInflight, "hook_events": ntrace, "trace_hash": th})
 	}
@@ -529,6 +710,15 @@ type SeqCase struct {
 	Steps  []string `json:"steps"` // R C F A B X(resetAuth)
 	// Escaped: the request path carries percent-escapes
 	Escaped bool `json:"escapedPath,omitempty"`
+	// Token: the client's token, carried by every value of the request ("" = "seq")
+	Token string `json:"token,omitempty"`
+	// N: postV's required integer query parameter: "" = valid | missing | bad
+	N string `json:"n,omitempty"`
+	// Before: the request is first asked once on its own, then another client sends a request with this
+	// credential kind to the same operation, then the sequence runs: it must be granted the same
+	Before string `json:"before,omitempty"`
+	// RewriteCT: after the first successful ContentType the Content-Type header is replaced by another valid one
+	RewriteCT bool `json:"rewriteCT,omitempty"`
 }
 
 type countingBody struct {
@@ -552,8 +742,9 @@ func (c *countingBody) Read(p []byte) (int, error) {
 }
 func (c *countingBody) Close() error { c.closed++; return nil }
 
-func runSequence(m *mon.M, s *server, sc *SeqCase, cfg *RunCfg) {
-	token := "seq"
+// seqRequest builds the request of a sequence case for one client (token) and credential kind, and lists the
+// principals its credentials can yield.
+func seqRequest(sc *SeqCase, token, cred string, withBody bool) (*http.Request, *countingBody, []interface{}) {
 	esc := ""
 	if sc.Escaped {
 		esc = "%20%C3%A9" // the path needs escaping: memoisation must not depend on how the path is spelled
@@ -561,37 +752,62 @@ func runSequence(m *mon.M, s *server, sc *SeqCase, cfg *RunCfg) {
 	v := func(x string) string { return token + "~" + x }
 	var req *http.Request
 	var cb *countingBody
+	var cands []interface{}
 	target := ""
 	method := "GET"
 	switch sc.Op {
 	case "postA":
 		method = "POST"
 		target = "/api/a/" + v("id") + esc + "?tok=" + v("tk")
-		if sc.Cred == "bad" {
+		if cred == "bad" {
 			target = "/api/a/" + v("id") + esc + "?tok=" + v("tk") + "~bad"
 		}
-		if sc.Cred == "none" {
+		if cred == "none" {
 			target = "/api/a/" + v("id") + esc
+		}
+		if cred != "bad" && cred != "none" {
+			cands = append(cands, "P:"+v("tk"))
 		}
 	case "getB":
 		target = "/api/b/" + v("x") + esc + "?q=" + v("q")
+	case "getS":
+		target = "/api/s/" + v("id") + esc + "?q=" + v("q")
+	case "postV":
+		method = "POST"
+		target = "/api/v/" + v("id") + esc
+		switch sc.N {
+		case "missing":
+		case "bad":
+			target += "?n=many"
+		default:
+			target += "?n=7"
+		}
 	default:
 		target = "/api/a/" + v("id") + esc + "?q=" + v("q")
 	}
-	if sc.Body {
-		cb = &countingBody{r: strings.NewReader(`{"t":"seq"}`)}
+	if withBody {
+		cb = &countingBody{r: strings.NewReader(fmt.Sprintf(`{"t":%q}`, token))}
 		req = httptest.NewRequest(method, target, cb)
 		req.ContentLength = -1 // unknown length: the body itself is probed
 	} else {
 		req = httptest.NewRequest(method, target, nil)
 	}
-	switch sc.Cred {
+	switch cred {
 	case "good":
 		req.Header.Set("X-Key", v("k"))
+		cands = append(cands, "P:"+v("k"))
 	case "bad":
 		req.Header.Set("X-Key", v("k")+"~bad")
 	case "zero":
 		req.Header.Set("X-Key", v("k")+"~zero")
+		cands = append(cands, "")
+	case "bearer":
+		req.Header.Set("Authorization", "Bearer "+v("b"))
+		cands = append(cands, "P:"+v("b"))
+	case "both":
+		req.Header.Set("X-Key", v("k"))
+		req.Header.Set("Authorization", "Bearer "+v("b"))
+		cands = append(cands, "P:"+v("k"), "P:"+v("b"))
 	}
 	if sc.CT != "" {
 		req.Header.Set("Content-Type", sc.CT)
@@ -600,11 +816,79 @@ func runSequence(m *mon.M, s *server, sc *SeqCase, cfg *RunCfg) {
 		req.Header.Set("Accept", sc.Accept)
 	}
 	req.Header.Set("X-Token", token)
+	return req, cb, cands
+}
 
-	var lookups int64
+func scopeString(r *http.Request) string {
+	if r == nil {
+		return ""
+	}
+	l := append([]string(nil), middleware.SecurityScopesFrom(r)...)
+	sort.Strings(l)
+	return strings.Join(l, ",")
+}
+
+// authOutcome is what one asker learns from Authorize.
+type authOutcome struct {
+	refused   bool
+	principal interface{}
+	scopes    string
+}
+
+func (a authOutcome) String() string {
+	if a.refused {
+		return "refused"
+	}
+	return fmt.Sprintf("principal %v scopes [%s]", a.principal, a.scopes)
+}
+
+// authorizeOnce sends one fresh request through RouteInfo and Authorize.
+func authorizeOnce(s *server, req *http.Request) (out authOutcome, ok bool) {
+	pv, _ := mon.Catch(func() {
+		rr, r1, found := s.ctx.RouteInfo(req)
+		if !found {
+			return
+		}
+		p, r2, err := s.ctx.Authorize(r1, rr)
+		out = authOutcome{refused: err != nil, principal: p, scopes: scopeString(r2)}
+		ok = true
+	})
+	return out, ok && pv == nil
+}
+
+func runSequence(m *mon.M, s *server, sc *SeqCase, cfg *RunCfg) {
+	token := sc.Token
+	if token == "" {
+		token = "seq"
+	}
+	req, cb, cands := seqRequest(sc, token, sc.Cred, sc.Body)
+	bearer := ""
+	if sc.Cred == "bearer" || sc.Cred == "both" {
+		bearer = token + "~b"
+	}
+	fail := func(sig, detail string) {
+		one := &RunCfg{Kind: "sequence", Seq: sc}
+		m.Violate(sig, fmt.Sprintf("%s ; case op=%s cred=%s ct=%q accept=%q body=%v n=%q before=%q steps=%v", detail, sc.Op, sc.Cred, sc.CT, sc.Accept, sc.Body, sc.N, sc.Before, sc.Steps), one)
+	}
+
+	// what this request is granted when nothing precedes it here, then another client's request to the same
+	// operation: the sequence below must be granted the same, whatever was served in between
+	var probe authOutcome
+	probed := false
+	if sc.Before != "" {
+		pr, _, _ := seqRequest(sc, token, sc.Cred, false)
+		probe, probed = authorizeOnce(s, pr)
+		other, _, _ := seqRequest(sc, "other", sc.Before, false)
+		authorizeOnce(s, other)
+	}
+
+	var lookups, validations int64
 	verifhook.Set(func(p string) {
-		if p == "mw.route.found" {
+		switch p {
+		case "mw.route.found":
 			atomic.AddInt64(&lookups, 1)
+		case "mw.validate.afterContentType":
+			atomic.AddInt64(&validations, 1)
 		}
 	})
 	defer verifhook.Set(nil)
@@ -617,14 +901,12 @@ func runSequence(m *mon.M, s *server, sc *SeqCase, cfg *RunCfg) {
 	var routeMemo, ctMemo, fmtMemo, authMemo, bindMemo bool
 	var memoCT, memoFmt string
 	var memoPrincipal interface{}
+	var memoScopes string
 	var memoBindErr string
 	var memoBound string
-	fail := func(sig, detail string) {
-		one := &RunCfg{Kind: "sequence", Seq: sc}
-		m.Violate(sig, fmt.Sprintf("%s ; case op=%s cred=%s ct=%q accept=%q body=%v steps=%v", detail, sc.Op, sc.Cred, sc.CT, sc.Accept, sc.Body, sc.Steps), one)
-	}
+	ctRewritten := false
 	for i, st := range sc.Steps {
-		before := struct{ l, a, c int64 }{atomic.LoadInt64(&lookups), atomic.LoadInt64(&s.authCalls), atomic.LoadInt64(&s.consumed)}
+		before := struct{ l, a, c, v int64 }{atomic.LoadInt64(&lookups), atomic.LoadInt64(&s.authCalls), atomic.LoadInt64(&s.consumed), atomic.LoadInt64(&validations)}
 		var stepErr interface{}
 		switch st {
 		case "R":
@@ -637,6 +919,16 @@ func runSequence(m *mon.M, s *server, sc *SeqCase, cfg *RunCfg) {
 						}
 						if rr != route {
 							fail("route-memo-differs", fmt.Sprintf("step %d RouteInfo returned a different MatchedRoute", i))
+						}
+					} else if rr != nil {
+						// first answer: the route of this request, with this request's path values
+						if rr.Operation == nil || rr.Operation.ID != sc.Op {
+							fail("route-of-another-request", fmt.Sprintf("step %d RouteInfo matched %q", i, rr.PathPattern))
+						}
+						for _, p := range rr.Params {
+							if !strings.HasPrefix(p.Value, token+"~") {
+								fail("route-of-another-request", fmt.Sprintf("step %d matched-route param %s=%q in the request of token %q", i, p.Name, p.Value, token))
+							}
 						}
 					}
 					route = rr
@@ -656,6 +948,16 @@ func runSequence(m *mon.M, s *server, sc *SeqCase, cfg *RunCfg) {
 					ctMemo, memoCT = true, mt
 					if r2 != nil {
 						cur = r2
+					}
+					if !ctRewritten && sc.RewriteCT {
+						// a later asker holding the returned request is served the parsed value, not a new parse:
+						// the header is rewritten (as a middleware may) to make a new parse visible
+						ctRewritten = true
+						if mt == "text/plain" {
+							cur.Header.Set("Content-Type", "application/json")
+						} else {
+							cur.Header.Set("Content-Type", "text/plain")
+						}
 					}
 				}
 			})
@@ -697,10 +999,39 @@ func runSequence(m *mon.M, s *server, sc *SeqCase, cfg *RunCfg) {
 					}
 					if err != nil || p != memoPrincipal {
 						fail("principal-memo-differs", fmt.Sprintf("step %d Authorize returned (%v, %v), memoised principal %v", i, p, err, memoPrincipal))
+					} else if now := scopeString(r2); now != memoScopes {
+						fail("scopes-memo-differ", fmt.Sprintf("step %d Authorize left scopes [%s], first [%s]", i, now, memoScopes))
+					}
+				} else if route.HasAuth() {
+					got := authOutcome{refused: err != nil, principal: p, scopes: scopeString(r2)}
+					// computed from this request: its own credentials identify it, the stored principal is the
+					// returned one, the scopes are those of the alternative its credential satisfies
+					if err == nil && p != nil {
+						okp := false
+						for _, c := range cands {
+							if p == c {
+								okp = true
+							}
+						}
+						switch {
+						case !okp:
+							fail("principal-of-another-request", fmt.Sprintf("step %d Authorize returned principal %v, the request's credentials yield %v", i, p, cands))
+						case r2 == nil || middleware.SecurityPrincipalFrom(r2) != p:
+							fail("stored-principal-differs", fmt.Sprintf("step %d Authorize returned principal %v, the returned request carries %v", i, p, middleware.SecurityPrincipalFrom(r2)))
+						case got.scopes != scopesFor(sc.Op, p, bearer):
+							fail("scopes-not-of-admitting-alternative", fmt.Sprintf("step %d Authorize stored scopes [%s], the alternative satisfied by %v has [%s]", i, got.scopes, p, scopesFor(sc.Op, p, bearer)))
+						}
+					}
+					if probed {
+						probed = false
+						if got.refused != probe.refused || got.principal != probe.principal || got.scopes != probe.scopes {
+							fail("grant-depends-on-earlier-requests/cred-"+sc.Cred+"-after-"+sc.Before,
+								fmt.Sprintf("step %d Authorize: %v; the same request asked before another client's %q request: %v", i, got, sc.Before, probe))
+						}
 					}
 				}
 				if err == nil && p != nil {
-					authMemo, memoPrincipal = true, p
+					authMemo, memoPrincipal, memoScopes = true, p, scopeString(r2)
 				}
 				if r2 != nil {
 					cur = r2
@@ -726,8 +1057,21 @@ func runSequence(m *mon.M, s *server, sc *SeqCase, cfg *RunCfg) {
 					if atomic.LoadInt64(&s.consumed) != before.c {
 						fail("body-consumed-again", fmt.Sprintf("step %d BindAndValidate ran the consumer again", i))
 					}
+					if atomic.LoadInt64(&validations) != before.v {
+						fail("binding-recomputed", fmt.Sprintf("step %d BindAndValidate validated the request again (first outcome: %q)", i, memoBindErr))
+					}
 					if es != memoBindErr || bs != memoBound {
 						fail("binding-memo-differs", fmt.Sprintf("step %d BindAndValidate (%s, %q), first (%s, %q)", i, bs, es, memoBound, memoBindErr))
+					}
+				} else if bm, ok := bound.(map[string]interface{}); ok && err == nil {
+					// first outcome, valid: the values are this request's
+					for _, k := range []string{"id", "x", "q"} {
+						if sv, ok := bm[k].(string); ok && !strings.HasPrefix(sv, token+"~") {
+							fail("bound-values-of-another-request", fmt.Sprintf("step %d bound %s=%q in the request of token %q", i, k, sv, token))
+						}
+					}
+					if body, ok := bm["body"].(map[string]interface{}); ok && sc.Body && fmt.Sprint(body["t"]) != token {
+						fail("bound-values-of-another-request", fmt.Sprintf("step %d bound body %v in the request of token %q", i, body, token))
 					}
 				}
 				bindMemo, memoBindErr, memoBound = true, es, bs
@@ -760,9 +1104,12 @@ func runSequence(m *mon.M, s *server, sc *SeqCase, cfg *RunCfg) {
 		seen[st] = true
 	}
 	if rep {
-		m.NT(fmt.Sprintf("seq|%s|%s|%s|%s|%v|%v|%s", sc.Op, sc.Cred, sc.CT, sc.Accept, sc.Body, sc.Escaped, strings.Join(sc.Steps, "")))
+		m.NT(fmt.Sprintf("seq|%s|%s|%s|%s|%v|%v|%s|%s|%s|%v", sc.Op, sc.Cred, sc.CT, sc.Accept, sc.Body, sc.Escaped, strings.Join(sc.Steps, ""), sc.N, sc.Before, sc.RewriteCT))
 	}
 	m.Class("sequence")
+	if sc.Before != "" {
+		m.Class("sequence-after-other-client")
+	}
 	if m.WantSample() {
 		m.Sample(sc)
 	}
@@ -770,13 +1117,26 @@ func runSequence(m *mon.M, s *server, sc *SeqCase, cfg *RunCfg) {
 
 func genSeq(r *rand.Rand) *SeqCase {
 	sc := &SeqCase{
-		Op:     []string{"getA", "postA", "getB", "postA"}[r.Intn(4)],
-		Cred:   []string{"good", "good", "bad", "none", "zero"}[r.Intn(5)],
+		Op:     []string{"getA", "postA", "getB", "postA", "getS", "postV", "getS", "postV"}[r.Intn(8)],
+		Cred:   []string{"good", "good", "bad", "none", "zero", "bearer", "both"}[r.Intn(7)],
 		CT:     []string{"application/json", "application/json; charset=utf-8", "", "text/plain", "bogus/"}[r.Intn(5)],
 		Accept: []string{"application/json", "text/plain", "", "image/png", "text/plain;q=0.5, application/json;q=0.4"}[r.Intn(5)],
 	}
-	sc.Body = sc.Op == "postA" && r.Intn(4) != 0
+	sc.Body = (sc.Op == "postA" || sc.Op == "postV") && r.Intn(4) != 0
 	sc.Escaped = r.Intn(3) == 0
+	if sc.Op == "postV" {
+		sc.N = []string{"", "missing", "bad"}[r.Intn(3)]
+		if sc.N != "" && r.Intn(2) == 0 {
+			sc.CT = "application/json" // nothing but the parameter is wrong
+		}
+	}
+	if sc.Op != "postV" && r.Intn(3) == 0 {
+		sc.Before = []string{"good", "bearer", "both", "bad"}[r.Intn(4)]
+		if sc.Op == "getS" && r.Intn(2) == 0 {
+			sc.Cred, sc.Before = "both", []string{"bearer", "good"}[r.Intn(2)]
+		}
+	}
+	sc.RewriteCT = r.Intn(2) == 0
 	n := 2 + r.Intn(11)
 	steps := "RCFABX"
 	sc.Steps = append(sc.Steps, "R")
@@ -809,6 +1169,7 @@ func run(m *mon.M) {
 	nseq := m.N(2500, 100000)
 	for i := 0; i < nseq; i++ {
 		sc := genSeq(r)
+		sc.Token = fmt.Sprintf("s%d", i)
 		if i%500 == 0 {
 			m.Begin(&RunCfg{Kind: "sequence", Seq: sc})
 		}
@@ -819,6 +1180,11 @@ func run(m *mon.M) {
 		m.Violate("in-pipeline-cross-talk/sequences", strings.Join(s.xt.list, "\n"), nil)
 	}
 	s.xt.mu.Unlock()
+	s.bothMu.Lock()
+	if len(s.hist) > 0 {
+		m.Violate("admitting-alternative-depends-on-other-requests/sequences", strings.Join(s.hist, "\n"), nil)
+	}
+	s.bothMu.Unlock()
 }
 
 func replay(m *mon.M, raw json.RawMessage) {
